@@ -510,8 +510,26 @@ def gen_rtype(depth, customs, allow_opt=True):
 DOCS = ["The identifier", "a value", "is it on?", "count of things (approx.)", "x", "Name, as given: by the user", "100% sure", "# not a heading", "", "second paragraph, after a blank line"]
 
 
+# documentation the way people write it: examples in fenced blocks, lists, emphasis, links, tables
+DOC_BLOCKS = [
+    ["Example:", "```", "let x = frobnicate(1);", "```"],
+    ["```text", "a -> b", "```", "after the example"],
+    ["```", "a fence that is never closed"],
+    ["~~~", "tilde fence", "~~~"],
+    ["- first", "- second", "  - nested"],
+    ["1. one", "2. two"],
+    ["*emphasis* and **strong** and `code`", "[a link](https://example.org/x#y)"],
+    ["| a | b |", "|---|---|", "| 1 | 2 |"],
+    ["> quoted", "<b>html</b> &amp; entities"],
+    ["    indented code", "back to prose"],
+]
+
+
 def docs():
-    if R.random() < 0.4:
+    r = R.random()
+    if r < 0.1:
+        return list(R.choice(DOC_BLOCKS))
+    if r < 0.45:
         return [R.choice(DOCS) for _ in range(R.randint(1, 3))]
     return []
 
@@ -522,7 +540,8 @@ def doc_attr(ds, indent):
 
 
 def gvec(ds):
-    return "vec![" + ", ".join(f'"{d}".to_string()' for d in ds).replace('\\', '\\\\') + "]"
+    # expectation: the doc lines as comments, without the white space around them (a `# text` line cannot carry any)
+    return "vec![" + ", ".join(f'"{d.strip()}".to_string()' for d in ds).replace('\\', '\\\\') + "]"
 
 
 def gen_c16(k):
